@@ -19,7 +19,7 @@ func GetAlternativesSearchOrder(
 	if len(params.GetCurrentChoice()) > 0 {
 		allAlternatives := dm.AllAlternatives()
 		choice := model.FetchAlternative(&allAlternatives, params.GetCurrentChoice())
-		leftAlternatives := model.RemoveAlternative(dm.ConsideredAlternatives, choice)
+		leftAlternatives := model.RemoveAlternative(*model.CopyAlternatives(&dm.ConsideredAlternatives), choice)
 		otherAlternatives := OrderAlternatives(params.IsRandomAlternativesOrdering(), &leftAlternatives, generator)
 		return choice, *otherAlternatives
 	} else {
